@@ -663,7 +663,7 @@ fn run_case_in(ctx: &Ctx, case: &Case, dir: &Path) -> Result<Obs, String> {
             let sp = cg.join("served.graphql");
             std::fs::write(&jp, written).map_err(|e| e.to_string())?;
             std::fs::write(&sp, sdl).map_err(|e| e.to_string())?;
-            let job = |p: &Path| Job { schema_path: p.to_string_lossy().into_owned(), query: QuerySrc::Text(query.clone()), opts: Opts::default() };
+            let job = |p: &Path| Job { schema_path: p.to_string_lossy().into_owned(), query: QuerySrc::Text(query.clone()), opts: Opts::default(), cwd: None };
             let a = run_job_here(&job(&sp));
             let b = run_job_here(&job(&jp));
             obs.codegen = Some((a, b));
